@@ -310,7 +310,7 @@ class Calls:
         info.update(pre=pre, result=res, raised=cls)
         for fam in ex.families:
             fam.after_call(ex, info)
-        ex.event('call', kind, target, tuple(args), res, cls)
+        ex.event('call', kind, target, tuple(args), res, cls, ex.heap.copy())
         if raised:
             raise PyRaise(cls, 'callee')
         return res
